@@ -389,6 +389,27 @@ Theorem C10_addr_lists_from_parse_result : eml_addr_lists_from_parser = true.
 Proof. reflexivity. Qed.
 Print Assumptions C10_addr_lists_from_parse_result.
 
+(* ---------- base64 body parts of ANY length ---------- *)
+(* T1: every transfer decoding in eml.go consumes its WHOLE input - the part data is io.ReadAll(multiPart), a
+   base64 body part is base64.StdEncoding.DecodeString of all of it, plain bodies are drained with ReadFrom,
+   and no function of eml.go calls a Read method itself (one Read of a streaming decoder returns one chunk);
+   recognised in the source on every run.  The model decodes the whole body (dec_b64 / eml_decode_body). *)
+Theorem C10_decoders_read_whole_input : eml_decode_whole_input = true.
+Proof. reflexivity. Qed.
+Print Assumptions C10_decoders_read_whole_input.
+
+(* C10_body_roundtrip quantifies over ALL content bytes; spelled out for base64 and the length: whatever the
+   length of the content, the decoded body of a base64 part is the content, all of it *)
+Theorem C10_base64_part_any_length : forall p : producer, wf_bytes (content_of p) = true ->
+  exists d, eml_decode_body EncB64 (encode_body EncB64 p) = Some d /\ d = content_of p /\
+            length d = length (content_of p).
+Proof.
+  intros p Hw. exists (content_of p). split; [| split; reflexivity].
+  pose proof (C10_body_roundtrip EncB64 p (or_intror (or_introl eq_refl)) Hw) as H.
+  cbn [expected_content] in H. apply H. intro E; discriminate E.
+Qed.
+Print Assumptions C10_base64_part_any_length.
+
 (* display names with a comma, semicolon, colon, angle brackets, parentheses, dots, at-sign (everything
    that makes net/mail quote the phrase) are inside the feature set, and C10_parse_render gives back the
    lists as net/mail parsed them *)
